@@ -350,6 +350,9 @@ struct Ctx {
 };
 
 void Ctx::cmpM(ManifoldManifold* cm, const Manifold& xm) {
+  // the C++ side is always evaluated first: if the library itself stops the process on this
+  // object, the phase marker says "cpp" and the stop is not attributed to the binding
+  SetPhase("cpp", "compare: Status");
   const Manifold::Error xs = xm.Status();
   SetPhase("c", "manifold_status");
   H("manifold_status");
@@ -360,38 +363,45 @@ void Ctx::cmpM(ManifoldManifold* cm, const Manifold& xm) {
     return;
   }
   H("manifold_is_empty");
-  if ((manifold_is_empty(cm) != 0) != xm.IsEmpty()) F.add("value", {{"what", "is_empty"}});
+  const bool xEmpty = xm.IsEmpty();
+  SetPhase("c", "manifold_is_empty");
+  if ((manifold_is_empty(cm) != 0) != xEmpty) F.add("value", {{"what", "is_empty"}});
   if (xs != Manifold::Error::NoError) return;
-  if (!xm.IsEmpty()) run.nontrivial++;
+  if (!xEmpty) run.nontrivial++;
   if (use64) {
+    SetPhase("cpp", "compare: GetMeshGL64");
+    const MeshGL64 want = xm.GetMeshGL64();
     Temp t(*this, kMG64);
     H("manifold_get_meshgl64");
     SetPhase("c", "manifold_get_meshgl64");
     auto* g = manifold_get_meshgl64(t.b.p, cm);
     t.check(g);
     MeshGL64 got = ReadMG64(F, g);
-    std::string d = MeshDiff(got, xm.GetMeshGL64());
+    std::string d = MeshDiff(got, want);
     if (!d.empty()) F.add("mesh", {{"field", d}, {"via", "manifold_get_meshgl64"}});
   } else {
+    SetPhase("cpp", "compare: GetMeshGL");
+    const MeshGL want = xm.GetMeshGL();
     Temp t(*this, kMG);
     H("manifold_get_meshgl");
     SetPhase("c", "manifold_get_meshgl");
     auto* g = manifold_get_meshgl(t.b.p, cm);
     t.check(g);
     MeshGL got = ReadMG(F, g);
-    std::string d = MeshDiff(got, xm.GetMeshGL());
+    std::string d = MeshDiff(got, want);
     if (!d.empty()) F.add("mesh", {{"field", d}, {"via", "manifold_get_meshgl"}});
   }
 }
 
 void Ctx::cmpCS(ManifoldCrossSection* cc, const CrossSection& xc) {
+  SetPhase("cpp", "compare: ToPolygons");
+  const Polygons want = xc.ToPolygons();
   Temp t(*this, kPG);
   H("manifold_cross_section_to_polygons");
   SetPhase("c", "manifold_cross_section_to_polygons");
   auto* p = manifold_cross_section_to_polygons(t.b.p, cc);
   t.check(p);
   Polygons got = ReadPG(F, p);
-  Polygons want = xc.ToPolygons();
   if (!SamePolys(got, want)) F.add("poly", {{"why", "cross-section contours differ"}, {"c_contours", got.size()}, {"cpp_contours", want.size()}});
   if (!want.empty()) run.nontrivial++;
 }
